@@ -1,9 +1,11 @@
 mod common;
 mod c14;
 mod c03;
+mod c09;
 mod c10;
 mod c17;
 mod wire;
+mod msgcfg;
 
 fn arg(args: &[String], name: &str, default: &str) -> String {
     args.iter()
@@ -27,6 +29,7 @@ fn main() {
         "version" => println!("{}", pgp::VERSION),
         "c14" => c14::run(&cases, &out, &tier, seed),
         "c10" => c10::run(&cases, &out, &tier, seed),
+        "c09" => c09::run(&cases, &out, &tier, seed),
         "c03" => c03::run(&cases, &out, &tier, seed),
         "c17" => c17::run(&cases, &out, &tier, seed),
         other => {
